@@ -44,17 +44,17 @@ def configs(tier):
                 dict(buffers=2, rich=1, depth=7, name="b2-rich"),
                 dict(buffers=4, rich=0, depth=8, name="b4"),
                 dict(buffers=4, rich=1, depth=6, name="b4-rich")]
-    return [dict(buffers=2, rich=0, depth=40, name="b2"),
-            dict(buffers=2, rich=1, depth=14, name="b2-rich"),
-            dict(buffers=4, rich=0, depth=18, name="b4"),
-            dict(buffers=4, rich=1, depth=12, name="b4-rich")]
+    return [dict(buffers=2, rich=0, depth=80, name="b2"),          # closes (frontier empties) well before depth 80
+            dict(buffers=2, rich=1, depth=10, name="b2-rich"),
+            dict(buffers=4, rich=0, depth=11, name="b4"),
+            dict(buffers=4, rich=1, depth=8, name="b4-rich")]
 
 
 class HprSpec(Spec):
-    n_validate = 2
 
     def __init__(self, cfg, tier):
         super().__init__(cfg, tier)
+        self.n_validate = 2 if tier == "quick" else 4      # each amaranth.sim replay costs seconds to set up
         self.n = cfg["buffers"]
         self.mon = L.HprMonitor(self, self.n)
         self.max_depth = cfg["depth"]
